@@ -76,8 +76,11 @@ Add(e) ==
        THEN Drift(e, "add call not expected by the model or it failed")
      ELSE B!CallAdd(S) /\ drift' = FALSE
 
-ReqSet(reqs) == {<<reqs[i].r, reqs[i].op, reqs[i].path>> : i \in DOMAIN reqs}
-NewModelReqs == {<<pg'.reqs[i].id, pg'.reqs[i].op, B!PathName(pg'.reqs[i].path)>> :
+\* a request as <<id, operation, path, the snapshot is the empty file>>
+ReqSet(reqs) == {<<reqs[i].r, reqs[i].op, reqs[i].path, reqs[i].empty>> : i \in DOMAIN reqs}
+EmptyData(d) == d.kind = "wal" /\ d.n = 0
+NewModelReqs == {<<pg'.reqs[i].id, pg'.reqs[i].op, B!PathName(pg'.reqs[i].path),
+                   pg'.reqs[i].op = "put" /\ EmptyData(pg'.reqs[i].data)>> :
                    i \in {j \in DOMAIN pg'.reqs : pg'.reqs[j].id > pg.nreq}}
 
 NewRes(e) == IF e.res_k > 0 /\ e.res_ok THEN {e.res_k} ELSE {}
